@@ -331,7 +331,7 @@ func (g *Gen) genInt(n int) *Term {
 				}
 				return must(Call(g.Sc, "FnU8", g.ident("U8")))
 			case 4:
-				return must(Call(g.Sc, "FnInts", g.genInts(n-1)))
+				return must(Call(g.Sc, "FnInts", g.genIntsDyn(n-1)))
 			case 5:
 				return must(Call(g.Sc, "FnItem", g.genItem(n-1)))
 			default:
@@ -495,6 +495,12 @@ func (g *Gen) genStr(n int) *Term {
 func (g *Gen) sliceOf(x *Term, n int) *Term {
 	r := g.R
 	bound := func() *Term {
+		if g.PureOnly {
+			if r.Chance(1, 4) {
+				return nil
+			}
+			return Int(r.Intn(5))
+		}
 		switch r.Intn(4) {
 		case 0:
 			return nil
@@ -917,3 +923,28 @@ func (g *Gen) Top(n int) *Term {
 func pickTerm(r *runner.Rng, xs []*Term) *Term { return xs[r.Intn(len(xs))] }
 
 func pickType(r *runner.Rng, xs []reflect.Type) reflect.Type { return xs[r.Intn(len(xs))] }
+
+// genIntsDyn generates a []int-typed term whose run-time value really is a
+// []int: results of map/filter have static type []T but are built as
+// []interface{} (recorded under C03), so they are not passed to []int
+// parameters by the other properties' workloads.
+func (g *Gen) genIntsDyn(n int) *Term {
+	r := g.R
+	switch r.Intn(6) {
+	case 0:
+		save := g.SmallInts
+		g.SmallInts = true
+		a, b := g.rangeBound(n/2), g.rangeBound(n/2)
+		g.SmallInts = save
+		return must(Binary(g.Sc, "..", a, b))
+	case 1:
+		if !g.NoCalls {
+			return must(Call(g.Sc, "MkInts", Int(r.Intn(8))))
+		}
+	case 2:
+		return must(Field(g.Sc, g.genItem(n-1), "Vals", false))
+	case 3:
+		return g.sliceOf(g.ident(r.Pick([]string{"Ints", "Ints2"})), n-1)
+	}
+	return g.ident(r.Pick([]string{"Ints", "Ints2", "Empty"}))
+}
